@@ -265,13 +265,14 @@ theorem filterMap_finiteY (l : List (Branch L K)) :
 
 theorem gen_admittance_connected_to (N : Net L K) (i : L) :
     admittance_connected_to N i
-      = ((N.nonVS.filter (fun b => b.n1 = i ∨ b.n2 = i)).map (·.e.Yfin)).sum := by
+      = ((N.nonVS.filter (fun b => (b.n1 = i ∨ b.n2 = i) ∧ b.n1 ≠ b.n2)).map (·.e.Yfin)).sum := by
   unfold admittance_connected_to
-  rw [((gen_branches_connected_to N i).filterMap _).sum_eq, filterMap_finiteY]
+  rw [(((gen_branches_connected_to N i).filter _).filterMap _).sum_eq, filterMap_finiteY]
   unfold Net.nonVS
-  rw [List.filter_filter, List.filter_filter]
+  rw [List.filter_filter, List.filter_filter, List.filter_filter]
   congr 2
-  apply List.filter_congr; intro b _; rw [Bool.and_comm]
+  apply List.filter_congr; intro b _
+  by_cases h1 : b.n1 = i ∨ b.n2 = i <;> by_cases h2 : b.n1 = b.n2 <;> simp [h1, h2]
 
 theorem gen_admittance_between (N : Net L K) (i j : L) :
     admittance_between N i j
@@ -350,9 +351,7 @@ theorem gen_dir (N : Net L K) (vs : String) (n : L) :
   unfold voltage_source_direction
   cases Network.getitem N vs with
   | error e => rfl
-  | ok b =>
-    simp only [Branch.dir, bind, Except.bind]
-    split_ifs <;> rfl
+  | ok b => rfl
 
 theorem gen_vs_matrix [LawfulLabelOrd L] (N : Net L K) (hids : N.ids.Nodup) :
     voltage_source_incidence_matrix N
@@ -366,8 +365,8 @@ theorem gen_vs_matrix [LawfulLabelOrd L] (N : Net L K) (hids : N.ids.Nodup) :
 
 theorem gen_Qentry (N : Net L K) (b : Branch L K) (row : L) :
     (let q : K := 0
-     let q : K := if (N.zero ≠ b.n1) ∧ b.n1 = row then (-1) else q
-     let q : K := if (N.zero ≠ b.n2) ∧ b.n2 = row then 1 else q
+     let q : K := if (N.zero ≠ b.n1) ∧ b.n1 = row then (q - 1) else q
+     let q : K := if (N.zero ≠ b.n2) ∧ b.n2 = row then (q + 1) else q
      q) = N.Qentry b row := by
   unfold Net.Qentry
   by_cases h1 : b.n1 = row <;> by_cases h2 : b.n2 = row <;> by_cases z1 : N.zero = b.n1 <;>
